@@ -721,6 +721,11 @@ var corpus = []string{
 	`x=1;func f(){a=[x];x=2;a};f()`,
 	`1/0`, `1%0`, `1<<(-1)`, `1>>(-1)`, `catch(1/0).err`,
 	`"abc"[-5:2]`, `a=[1,2,3];a[-7:1]`, `"abc"[5:10]`, `[1,2,3][2:1]`,
+	`a=9223372036854775807; b=9223372036854775808.0; [a<b, 5<b, [a]<[b], b>a, a==b, a>=b, b<=a, a!=b]`,
+	`m={9223372036854775808.0:"big", 1:"one", 9223372036854775807:"max"}; for kv=m{print(kv.value,"")}; first(m).value`,
+	`[(-9223372036854775807-1) >= -9223372036854775808.0, (-9223372036854775807-1) > -9223372036854775808.0, -9223372036854777856.0 < (-9223372036854775807-1), 9223372036854774784.0 < 9223372036854775807, 9223372036854777856.0 > 9223372036854775807]`,
+	`[9007199254740993 > 9007199254740992.0, 9007199254740993 == 9007199254740992.0, 9007199254740993 < 9007199254740994.0, [9007199254740993] <= [9007199254740992.0], -9007199254740993 < -9007199254740992.0]`,
+	`f=func(a,..){..}; [f(1,[[5]]), f(1,[5]), f(1,5), f(1,[[5]]), f(1,[5])]`,
 	`func counter(start){n=start; {"inc":()=>{n=n+1}, "get":()=>n}}; c1=counter(0); c2=counter(0); c1.inc(); c1.inc(); println(c1.get(), c2.get())`,
 	`func mk(){n=0; [()=>{n=n+1;n}, ()=>n]}; a=mk(); b=mk(); a[0](); a[0](); [a[1](), b[1]()]`,
 	`func mk(s){n=len(s); {"o":[()=>{n++}, ()=>n], "a":1,"b":2,"c":3,"d":4}}; a=mk("x"); b=mk("x"); c=mk("yy"); a.o[0](); [a.o[1](), b.o[1](), c.o[1]()]`,
@@ -915,7 +920,7 @@ func runC01(c *Ctx) {
 	for _, src := range corpus {
 		r.one(src, "corpus", map[string]bool{"corpus": true, "a": true, "b": true})
 	}
-	nprog, nwrap := 8000, 1200
+	nprog, nwrap := 7000, 1000
 	if c.Thorough() {
 		nprog, nwrap = 60000, 5000
 	}
@@ -963,6 +968,19 @@ func runC01(c *Ctx) {
 			featTotal[f]++
 		}
 		r.one(src, "factory", g.feats)
+	}
+	// int/float comparisons at the edges of int64 and of the 53-bit mantissa; variadic calls with nested last arguments
+	nedge := 1500
+	if c.Thorough() {
+		nedge = 12000
+	}
+	for i := 0; i < nedge; i++ {
+		g := newGen(c.R, false)
+		src := g.edgeProgram()
+		for f := range g.feats {
+			featTotal[f]++
+		}
+		r.one(src, "edge", g.feats)
 	}
 	for i := 0; i < nwrap; i++ {
 		r.wrapOracle(newGen(c.R, false))
